@@ -92,6 +92,15 @@ pub fn inline_lattice<S: USet>(e: &mut Eng<S>) {
                         expect_inline(e, 2, "removal", &rest);
                     }
                     e.op_drop(2);
+                    // the same removal through the difference operators (the by-value form is a remove loop)
+                    if k == 0 || code % 5 == 0 {
+                        e.op_collect(3, &[members[k]]);
+                        e.op_binop(4, 0, 3, false, true);
+                        e.op_binop(5, 0, 3, false, false);
+                        e.op_drop(3);
+                        e.op_drop(4);
+                        e.op_drop(5);
+                    }
                 }
             }
             e.op_drop(0);
